@@ -40,11 +40,30 @@ def inputs(ctx):
     cs += rng.sample(grid, 250) if ctx.quick else grid
     cs += [curves.random_curve(rng, 3, 50 if ctx.quick else 150) for _ in range(250 if ctx.quick else 2500)]
     cs += curves.trace_windows(rng, 6 if ctx.quick else 60, 20, 100, names=("web0_reduced.csv", "usr0.csv", "web2.csv"))
+    # long curves (fast paths / chunking that only start at some size must not change the partition)
+    big = []
+    for n in ([600, 1500] if ctx.quick else [600, 900, 1500, 2500, 5000]):
+        x = np.arange(1, n + 1, dtype=float)
+        base = 100.0 / np.sqrt(x)
+        alt = base.copy(); alt[1::2] *= 0.9                              # every second sample lower
+        rip = base * (1.0 + 0.05 * np.sin(x * 2.0 * np.pi / 3.0))        # period-3 ripple
+        spk = base.copy(); spk[n // 2 + 1] *= 1.8; spk[n // 3 + 1] *= 0.3  # narrow spikes
+        noi = base * np.array([1.0 + 0.05 * rng.random() for _ in range(n)])
+        big += [curves.mk(x, alt), curves.mk(x, rip), curves.mk(x, spk), curves.mk(x, noi)]
+    nbig = len(big)
+    cs = big + cs
     items = []
     for ci, P in enumerate(cs):
         combos = [(c, d) for c in simpl.COSTS for d in simpl.DISTANCES]
+        if ci < nbig:
+            for c, d in rng.sample(combos, 4):
+                for ti, t in enumerate([0.5, 0.2, 0.08] if c != "r2" else [0.5, 0.9]):
+                    items.append(("big%d-%s-%s-%d" % (ci, c, d, ti), P.tolist(), {"f": "rdp", "t": t, "distance": d, "cost": c}))
+            continue
+        ci -= nbig
         if ci >= 19:
             combos = rng.sample(combos, 3 if ctx.quick else 6)
+        ci += nbig
         for c, d in combos:
             ts = [0.01, 0.1, 0.5] + simpl.harvest_thresholds(P, c, rng, 3)
             if c == "r2":
